@@ -9,7 +9,7 @@
    default-serializer theorems are `_partial` in the sense of C01_roundtrip_pointwise_partial:
    the JSON parser is not modelled, its correctness on the text at hand is the premise. *)
 From VT Require Import Codec.Packet Codec.SpecCodec Check.C01Check Check.C01CheckProofs.
-From VT Require Import Codec.MsgPack E2E.Pipe Check.C02Check E2E.E2EProofs.
+From VT Require Import Codec.MsgPack E2E.Pipe E2E.AckTable Check.C02Check E2E.E2EProofs E2E.AckTableProofs.
 From VT Require Import Codec.JsonParse E2E.E2EConcrete.
 
 (* client.py and server.py / manager.py run the same packing, unpacking and reassembly code:
@@ -130,9 +130,41 @@ Theorem C02_checker_sound : forall c, c02_prop c = true ->
   | CallRes r obs => obs = call_result (pack r)
   | CbArgs r obs => obs = pack r
   | Unmodified orig after => after = orig
+  | Acks rets evs =>
+      Forall2 obs_sees evs (i_run i_init (map (obs_ideal rets) evs)) /\
+      Forall (fun o => match o with OAck (Some w) _ _ args _ => args = ret_args rets w | _ => True end) evs
   end.
 Proof. exact c02_prop_sound. Qed.
 Print Assumptions C02_checker_sound.
+
+(* ---- acknowledgements that arrive late (E2E/AckTable.v) ----
+   A sender's timeline: callbacks are registered (emit(callback=), call()), the peer's ACKs
+   arrive at ANY later time - also after the call() they belong to has timed out, interleaved
+   with later registrations on the same namespace -, call()s stop waiting.  `AAckOf w args` =
+   the ACK replying to the EVENT of registration w, carrying the (key, id) that EVENT left with.
+   The real registry (per-key counter, routing by (key, id), entries removed by their own ACK
+   only) invokes the same callbacks with the same arguments and ends every call() the same way
+   as the ideal registry, in which an ACK invokes exactly the outstanding registration it
+   replies to. *)
+Theorem C02_ack_routing : forall evs,
+  index_form evs -> NoDup (reg_whos evs) ->
+  map no_ids (a_run a_init evs) = map no_ids (i_run i_init evs).
+Proof. exact ack_routing. Qed.
+Print Assumptions C02_ack_routing.
+
+(* with a peer that replies to each EVENT with `pack` of what the handler invocation for THAT
+   event returned (C02_ack_partial / C02_ack_msgpack): an ACK invokes nothing or its own
+   operation's callback with its own handler's value; every call() raises TimeoutError or returns
+   the value its OWN handler invocation returned; no callback is invoked twice; a callback
+   whose ACK arrives at any time after the registration is invoked (hence exactly once) *)
+Theorem C02_late_ack_own_value : forall ret evs,
+  index_form evs -> NoDup (reg_whos evs) -> faithful ret evs ->
+  Forall2 (own_ok ret) evs (a_run a_init evs) /\
+  NoDup (fired_whos (a_run a_init evs)) /\
+  (forall key w args pre post, evs = pre ++ AReg key w :: post -> In (AAckOf w args) post ->
+     In w (fired_whos (a_run a_init evs))).
+Proof. exact late_ack_own_value. Qed.
+Print Assumptions C02_late_ack_own_value.
 
 (* ---- Pipe.v against the stateful models (Server/Server.v, Client/Client.v), which their own
         correspondence checks validate against the real classes (E2E/Bridge.v) ---- *)
